@@ -9,6 +9,7 @@ import ChythonModel.Proofs.C10PerceiveMain
 import ChythonModel.Proofs.C10Terminals
 import ChythonModel.Proofs.C10Ideal
 import ChythonModel.Proofs.C10PerceiveWF
+import ChythonModel.Proofs.C10Cover
 /-!
 # C10 — binary pack format: lossless round trip, stable published layout
 
@@ -505,6 +506,12 @@ theorem stereo_roundtrip_molecule_level (atoms : List PAtom) (h : AtomsWF atoms)
   obtain ⟨p, hp⟩ := perceive_ok h.graph
   exact ⟨p, hp, fun hm rest =>
     pack_unpack_full_aux atoms p hp (wf_perceived h hp hm) hm (keysDisjoint_of_noHyper h.graph hn hp) rest⟩
+
+/-- **no chain end is missed**: on a well-formed graph every atom that has exactly one double-bond partner (`adj[t]` a one-element
+    set) is the first atom of a reported group or the last atom of a reported complete chain -/
+theorem chain_ends_covered (atoms : List PAtom) (g : GraphOK atoms) (ws : List Walk) (h : cumulenesTagged atoms = .ok ws)
+    (t y : Nat) (ht : dblAdj atoms t = [y]) : ∃ w ∈ ws, EndOf t w :=
+  terminals_covered g h ht
 
 /-- `NoHyperDouble` is satisfiable by a molecule with a three-coordinate end atom (the iminium end of `exTriene`) -/
 example : NoHyperDouble exTriene := noHyperDoubleb_sound _ (by decide +kernel)
